@@ -1,5 +1,8 @@
 //! Shared helpers of the correspondence harness: one seeded PRNG, Gallina term
 //! printers, a counting allocator, boundary-dense value generators.
+pub mod connrun;
+pub mod pipe;
+
 use std::alloc::{GlobalAlloc, Layout, System};
 use std::sync::atomic::{AtomicUsize, Ordering};
 
